@@ -80,7 +80,7 @@ def build(tier, seed):
             jobs.append(("reset", A, B))
     # a run whose last increments OVERFLOWED (a growing solution, fixed step, no error raised), then reset() and a short, finite run: nothing of
     # the overflow - e.g. an inf left in a work buffer that is cleared by multiplying with zero - may reach the second run
-    for m in ["Symplectic Forward Euler", "ABAS5O6H", "RK4"] + (["BABS9O7H", "Midpoint"] if thorough else [])      # (explicit and splitting methods only: an implicit stage solve fails once the state overflows):
+    for m in ["Symplectic Forward Euler", "ABAS5O6H", "RK4"] + (["BABS9O7H", "Midpoint"] if thorough else []):      # (explicit and splitting methods only: an implicit stage solve fails once the state overflows)
         for sg in (1.0, -1.0):
             A = gen.base(m, 0.0, sg * 2000.0, 0.5, problem="grow", y0=[1.0, 0.5], dense=False)
             A["budget"] = 2000000
